@@ -1,0 +1,11 @@
+//go:build verif
+
+package provenance
+
+// VerifParseMessageBlock exposes parseMessageBlock (the part of Signatory.Verify that splits the
+// signed text of a .prov file into chart metadata and file sums) to the verification harness:
+// the signature check in front of it lets only blocks through that were signed as they are.
+func VerifParseMessageBlock(data []byte) error {
+	_, _, err := parseMessageBlock(data)
+	return err
+}
